@@ -66,6 +66,20 @@ CHECKS = {
         note='K(program) is fixed from the program: 99 rows for iterable sources, 1000 for load(). Quick uses 300/3000 (csv 3000/9000) rows, thorough 1000/100000 (csv 5000/50000).',
         technique='TLA+ engine model with read-ahead counters checked by TLC + TLC validation of delivery traces recorded from long real runs',
         design='6/C06', specs=['Engine.tla', 'LookaheadTrace.tla']),
+    'C18': dict(
+        level='model_checking',
+        text='Parallelize.tla models producer thread, N worker processes, fetcher thread and collector with multiprocessing queues as they '
+             'behave (per-process feeder buffers, FIFO per producer only) and the lazy start; TLC checks ExactlyOnce, AtMostOnce, '
+             'AppliedBeforeDelivered, Quiescent, NoRowAfterEnd and, under weak fairness, Termination, exhaustively for 0..4 rows x 1..3 '
+             'workers x all predicate patterns (thorough: up to 5 rows / 4 workers). The unmodified producer/fetcher/work/fork bodies are '
+             'run under a cooperative scheduler along ~1700 (quick) / ~17000 seeded schedules (uniform, feeder-starving, PCT-style), '
+             'every queue operation logged as the spec action it must be; TLC validates each log against ParallelizeTrace.tla and judges the '
+             'recorded deliveries (exactly once, applied once iff selected, terminated, no deadlock). Real multiprocessing runs with random '
+             'delays in a killable process group are judged by the same formula.',
+        note='Trusted: TLC, the scheduler shims for mp/threading/queue (harness/sched.py). A get() with a timeout may time out whenever the queue is '
+             'empty (none exists in the pinned code). Upstream/row_func failures are outside C18 (C04).',
+        technique='TLA+ protocol model checked with TLC incl. liveness + TLC trace validation of schedules driven through the real code by a cooperative scheduler',
+        design='6/C18', specs=['Parallelize.tla', 'ParallelizeTrace.tla']),
 }
 
 NOT_YET = 'check not built yet (build in progress, see DESIGN.md section 10)'
